@@ -204,6 +204,15 @@ class Check(FormulaCheck):
             b = self.ev('HEX2DEC(DEC2HEX(v_n))', v_n=n)
             self.expect('C17/HEX2DEC(DEC2HEX(n))', b == n, n=n, hex=self.ev('DEC2HEX(v_n)', v_n=n), got=b)
             rec.nt(('hex', n))
+            # with a number of places: whatever text comes back still denotes n (padding adds zeros only); an error otherwise
+            pl = rnd.randint(0, 12)
+            t = self.ev('DEC2HEX(v_n,v_p)', v_n=n, v_p=pl)
+            if not self.is_err(t):
+                back = self.ev('HEX2DEC(v_t)', v_t=t)
+                plain = self.ev('DEC2HEX(v_n)', v_n=n)
+                self.expect('C17/HEX2DEC(DEC2HEX(n,places))', back == n and isinstance(t, str) and t.lstrip('0') == str(plain).lstrip('0'), n=n, places=pl, hex=t, got=back)
+            else:
+                rec.case()
             r = rnd.randint(2, 36)
             m = rnd.choice([0, 1, r - 1, r, r * r - 1, rnd.randint(0, HI40 - 1), rnd.randint(0, 5000), HI40 - 1])
             t = self.ev('BASE(v_n,v_r)', v_n=m, v_r=r)
